@@ -2,9 +2,11 @@
    Only final statements.  [o : Kops] is ANY coefficient structure with [Klaws o] (commutative ring with
    involution; the complex numbers are an instance, C12_laws_satisfiable).  Conventions: qubit 0 is the most
    significant bit, bit N q k = (k / 2^(N-q-1)) mod 2, 'r' = 1, 'g' = 0; strings are lists of digits.
-   Model functions: Model/SvState.v, tied to /repo by the exact correspondence of tools/props/c12.py. *)
+   Model functions: Model/SvState.v and Model/SvOps.v, tied to /repo by the exact correspondences of
+   tools/props/c12.py. *)
 From Coq Require Import List Arith Bool.
-From EV Require Import Model.SvBase Model.SvState Proofs.SvBaseProofs Proofs.SvStateProofs Proofs.SvComplexInstance.
+From EV Require Import Model.SvBase Model.SvState Model.SvOps Proofs.SvBaseProofs Proofs.SvStateProofs
+  Proofs.SvOpsProofs Proofs.SvComplexInstance.
 Import ListNotations.
 
 Theorem C12_laws_satisfiable : Klaws CK.
@@ -69,10 +71,113 @@ Theorem C12_inner_overlap_def : forall (o : Kops) (a b : list o),
   dm_overlap o a b = ksumn (length a) (fun k => kmul o (kconj o (get a k)) (get b k)).
 Proof. intros; split; reflexivity. Qed.
 
-(* C12_dense_sparse_agree_partial: the step lemmas above (sparse_kron_dense, sparse_add_dense) give dense ==
-   sparse for each kron / add step; their composition over a whole operator representation
-   (sparse_from_repr vs dense_from_repr) is not stated as a single theorem: it is validated by the exact
-   correspondence (N <= 3 through the model, N <= 8 on the real code). *)
+(* ---- operator representations: meaning, dense == sparse, for EVERY N (also 0) and EVERY representation -------
+   (any number of terms, nested tensor factors, multi-qubit and repeated targets, out-of-range targets ignored).
+   Model/SvOps.v states the meaning directly on the representation:
+     qudit_entry terms a b   = sum of the coefficients of the keys "ab" of a QuditOp,
+     site_entry top q a b    = qudit_entry of the LAST (op, targets) pair of the tensor term with q among its
+                               targets, delta_ab when no pair targets q,
+     repr_entry N ops i j    = sum_terms coeff * prod_{q < N} site_entry top q (bit_q i) (bit_q j). *)
+
+(* build_torch_operator_from_string on a QuditOp: element [a][b] = sum of the coefficients of "ab". *)
+Theorem C12_qudit_op_entry : forall (o : Kops), Klaws o -> forall (terms : list (nat * nat * o)) a b,
+  a < 2 -> b < 2 -> m2 (build_qudit_op o terms) a b = qudit_entry o terms a b.
+Proof. exact build_qudit_op_entry. Qed.
+
+(* single_qubit_gates after the assignment loops: N factors, factor q is the last assignment to q (identity if
+   none), whatever the nesting / repetition of targets. *)
+Theorem C12_tensor_gates_last_wins : forall (o : Kops), Klaws o ->
+  forall N (top : list (list (nat * nat * o) * list nat)),
+  length (tensor_gates o N top) = N /\
+  forall q, q < N -> nth q (tensor_gates o N top) m2zero = gate_at o top q /\
+  forall a b, a < 2 -> b < 2 -> m2 (gate_at o top q) a b = site_entry o top q a b.
+Proof.
+  intros o H N top. destruct (tensor_gates_spec o N top) as [E G]. split; [exact E|].
+  intros q Hq. split; [exact (G q Hq) | intros a b; exact (gate_at_entry o H top q a b)].
+Qed.
+
+(* DenseOperator._from_operator_repr: the matrix is 2^N x 2^N and <i|O|j> = repr_entry. *)
+Theorem C12_dense_from_repr_entry : forall (o : Kops), Klaws o ->
+  forall N (ops : list (o * list (list (nat * nat * o) * list nat))),
+  fst (dense_from_repr o N ops) = 2 ^ N /\
+  forall i j, i < 2 ^ N -> j < 2 ^ N -> mget o (dense_from_repr o N ops) i j = repr_entry o N ops i j.
+Proof. exact dense_from_repr_entry. Qed.
+
+(* reduce(sparse_kron, gates) == reduce(torch.kron, gates) for every list of 2x2 factors. *)
+Theorem C12_sparse_kron_all_dense : forall (o : Kops), Klaws o -> forall (gates : list (M2 o)) i j,
+  i < 2 ^ length gates -> j < 2 ^ length gates ->
+  coo_dense o (sparse_kron_all o gates) i j = mget o (kron_all o gates) i j.
+Proof. exact sparse_kron_all_dense. Qed.
+
+(* THE DENSE AND SPARSE OPERATORS ALWAYS AGREE: SparseOperator._from_operator_repr(...).to_dense() equals
+   DenseOperator._from_operator_repr(...) entry by entry (hence both equal repr_entry), same shape. *)
+Theorem C12_dense_sparse_agree : forall (o : Kops), Klaws o ->
+  forall N (ops : list (o * list (list (nat * nat * o) * list nat))),
+  fst (sparse_from_repr o N ops) = (2 ^ N, 2 ^ N) /\
+  forall i j, i < 2 ^ N -> j < 2 ^ N ->
+    coo_dense o (sparse_from_repr o N ops) i j = mget o (dense_from_repr o N ops) i j.
+Proof. exact sparse_dense_from_repr. Qed.
+
+(* SparseOperator.apply_to / expect (scatter-add over the stored COO entries, duplicates adding up) equal the dense
+   matrix-vector product / vdot(v, M v) of the to_dense() matrix, for ANY entry list (uncoalesced, any order). *)
+Theorem C12_coo_apply_dense : forall (o : Kops), Klaws o -> forall (S : coo o) (v : list o),
+  (let '(r, _, _) := S in length v <= r) ->
+  coo_apply o S v = mapply o (coo_to_mat o S) v /\ coo_expect o S v = mexpect o (coo_to_mat o S) v.
+Proof.
+  intros o H S v Hv. pose proof (coo_apply_dense o H S v Hv) as E. split; [exact E|].
+  unfold coo_expect, mexpect. rewrite E. reflexivity.
+Qed.
+
+(* ... and for operators built from a representation, sparse apply_to / expect == dense apply_to / expect. *)
+Theorem C12_dense_sparse_apply_agree : forall (o : Kops), Klaws o ->
+  forall N (ops : list (o * list (list (nat * nat * o) * list nat))) (v : list o), length v <= 2 ^ N ->
+  coo_apply o (sparse_from_repr o N ops) v = mapply o (dense_from_repr o N ops) v /\
+  coo_expect o (sparse_from_repr o N ops) v = mexpect o (dense_from_repr o N ops) v.
+Proof. exact sparse_dense_apply. Qed.
+
+(* SparseOperator.__rmul__ (scalar * values) is the entrywise scaling (with C12_sparse_add_dense for __add__). *)
+Theorem C12_coo_scale_dense : forall (o : Kops), Klaws o -> forall s (A : coo o) i j,
+  coo_dense o (coo_scale o s A) i j = kmul o s (coo_dense o A i j).
+Proof. exact coo_scale_dense. Qed.
+
+(* ---- operator algebra of DenseOperator: @, +, scalar *, apply_to, expect --------------------------------- *)
+(* (A @ B).apply_to(v) = A.apply_to(B.apply_to(v)) *)
+Theorem C12_apply_matmul : forall (o : Kops), Klaws o -> forall (A B : mat o) (v : list o), fst B = fst A ->
+  mapply o (matmul o A B) v = mapply o A (mapply o B v).
+Proof. exact mapply_matmul. Qed.
+
+(* apply_to is linear in the operator *)
+Theorem C12_apply_linear : forall (o : Kops), Klaws o -> forall s (A B : mat o) (v : list o), fst B = fst A ->
+  mapply o (madd o A B) v = vadd (mapply o A v) (mapply o B v) /\
+  mapply o (mscale o s A) v = vscale s (mapply o A v).
+Proof. intros o H s A B v E. split; [exact (mapply_madd o H A B v E) | exact (mapply_mscale o H s A v)]. Qed.
+
+(* expect is linear in the operator *)
+Theorem C12_expect_linear : forall (o : Kops), Klaws o -> forall s (A B : mat o) (v : list o),
+  fst B = fst A -> length v <= fst A ->
+  mexpect o (madd o A B) v = kadd o (mexpect o A v) (mexpect o B v) /\
+  mexpect o (mscale o s A) v = kmul o s (mexpect o A v).
+Proof. exact mexpect_linear. Qed.
+
+(* non-vacuity: the premises of the theorems above are satisfiable (complex numbers, one qubit, the operator
+   2 * n = 2 |r><r| given with a repeated target, the state (1, 1)); and the meaning function is not degenerate:
+   over the dyadic Gaussian rationals, X_0 (x) n_1 + i * Y_1 (Y written gr: i, rg: -i) has the expected entries. *)
+Example C12_premises_satisfiable :
+  let ops : list (CK * list (list (nat * nat * CK) * list nat)) := [(k1 CK, [([(1, 1, kadd CK (k1 CK) (k1 CK))], [0; 0])])] in
+  let v : list CK := [k1 CK; k1 CK] in
+  length v <= 2 ^ 1 /\ fst (dense_from_repr CK 1 ops) = fst (dense_from_repr CK 1 ops) /\ length v <= fst (dense_from_repr CK 1 ops) /\
+  (let '(r, _, _) := sparse_from_repr CK 1 ops in length v <= r) /\ 1 < 2 ^ 1.
+Proof. cbv zeta. rewrite (proj1 (dense_from_repr_entry CK CK_laws 1 _)). simpl. repeat split; auto. Qed.
+
+Example C12_repr_entry_sample :
+  let one := k1 DyK in let i := kI DyK in
+  let ops := [(one, [([(0, 1, one); (1, 0, one)], [0]); ([(1, 1, one)], [1])]);
+              (i, [([(0, 1, i); (1, 0, kopp DyK i)], [1])])] in
+  map (fun ij => repr_entry DyK 2 ops (fst ij) (snd ij)) [(1, 3); (3, 1); (0, 1); (1, 0); (2, 3); (0, 0)] =
+  [one; one; kopp DyK one; one; kopp DyK one; k0 DyK] /\
+  map (fun ij => mget DyK (dense_from_repr DyK 2 ops) (fst ij) (snd ij)) [(1, 3); (3, 1); (0, 1); (1, 0); (2, 3); (0, 0)] =
+  [one; one; kopp DyK one; one; kopp DyK one; k0 DyK].
+Proof. vm_compute. split; reflexivity. Qed.
 
 (* DensityMatrix.overlap on ARBITRARY (not necessarily Hermitian) D x D data is Tr(A^dagger B):
    overlap(A,B) = sum_c sum_r conj(A[r,c]) * B[r,c] = sum_c (A^dagger B)[c,c]. *)
